@@ -155,4 +155,134 @@ theorem peel_fuel (sp : Spec) : ∀ (f : Nat) (rem done : List String), rem.leng
             omega
           · omega
 
+/-! ### … and nothing acyclic is rejected -/
+
+theorem exists_min_rank (rank : String → Nat) : ∀ (l : List String), l ≠ [] →
+    ∃ n ∈ l, ∀ m ∈ l, rank n ≤ rank m := by
+  intro l
+  induction l with
+  | nil => intro h; exact absurd rfl h
+  | cons a as ih =>
+    intro _
+    cases as with
+    | nil => exact ⟨a, by simp, by intro m hm; have : m = a := by simpa using hm
+                                   rw [this]; exact Nat.le_refl _⟩
+    | cons b bs =>
+      rcases ih (by simp) with ⟨n, hn, hmin⟩
+      by_cases h : rank a ≤ rank n
+      · refine ⟨a, by simp, ?_⟩
+        intro m hm
+        rcases List.mem_cons.mp hm with rfl | hm
+        · exact Nat.le_refl _
+        · exact Nat.le_trans h (hmin m hm)
+      · refine ⟨n, List.mem_cons.mpr (Or.inr hn), ?_⟩
+        intro m hm
+        rcases List.mem_cons.mp hm with rfl | hm
+        · omega
+        · exact hmin m hm
+
+/-- completeness of the layer-by-layer resolution: with a ranking, and every requirement of a remaining
+    name resolved or remaining, every round resolves something -/
+theorem peel_complete (sp : Spec) (rank : String → Nat) (hrank : ∀ n q, q ∈ reqsN sp n → rank q < rank n) :
+    ∀ (f : Nat) (rem done : List String), rem.length ≤ f →
+      (∀ n ∈ rem, ∀ q ∈ reqsN sp n, q ∈ done ∨ q ∈ rem) → peel sp f rem done = true := by
+  intro f
+  induction f with
+  | zero =>
+    intro rem done hl _
+    have : rem = [] := List.eq_nil_of_length_eq_zero (Nat.le_zero.mp hl)
+    subst this; simp [peel]
+  | succ f ih =>
+    intro rem done hl hinv
+    cases rem with
+    | nil => simp [peel]
+    | cons a as =>
+      simp only [peel]
+      rcases exists_min_rank rank (a :: as) (by simp) with ⟨n, hn, hmin⟩
+      have hready : n ∈ List.filter (readyN sp done) (a :: as) := by
+        refine List.mem_filter.mpr ⟨hn, ?_⟩
+        unfold readyN
+        rw [List.all_eq_true]
+        intro q hq
+        rcases hinv n hn q hq with h | h
+        · exact List.contains_iff_mem.mpr h
+        · have h1 := hrank n q hq
+          have h2 := hmin q h
+          omega
+      have hne : (List.filter (readyN sp done) (a :: as)).isEmpty = false := by
+        cases hf : List.filter (readyN sp done) (a :: as) with
+        | nil => rw [hf] at hready; simp at hready
+        | cons _ _ => rfl
+      rw [hne]
+      simp only [Bool.false_eq_true, if_false]
+      apply ih
+      · have hex : ∃ x ∈ a :: as, ¬ ((fun m => !(done ++ List.filter (readyN sp done) (a :: as)).contains m) x = true) := by
+          refine ⟨n, hn, ?_⟩
+          have hcx : (done ++ List.filter (readyN sp done) (a :: as)).contains n = true :=
+            List.contains_iff_mem.mpr (List.mem_append.mpr (Or.inr hready))
+          dsimp only
+          rw [hcx]; decide
+        have := List.length_filter_lt_length_iff_exists.mpr hex
+        simp only [List.length_cons] at hl this ⊢
+        omega
+      · intro m hm q hq
+        have hm' := (List.mem_filter.mp hm).1
+        rcases hinv m hm' q hq with h | h
+        · exact Or.inl (List.mem_append.mpr (Or.inl h))
+        · by_cases hc : (done ++ List.filter (readyN sp done) (a :: as)).contains q = true
+          · exact Or.inl (List.contains_iff_mem.mp hc)
+          · refine Or.inr (List.mem_filter.mpr ⟨h, ?_⟩)
+            cases hb : (done ++ List.filter (readyN sp done) (a :: as)).contains q with
+            | true => exact absurd hb hc
+            | false => rfl
+
+/-- the validator's cycle check accepts exactly the definitions whose requirements exist (by name)
+    and admit a ranking -/
+theorem requiresAcyclic_iff (sp : Spec) : requiresAcyclic sp = true ↔ WellFormedN sp ∧ AcyclicN sp := by
+  constructor
+  · exact requiresAcyclic_sound sp
+  · rintro ⟨hwf, rank, hrank⟩
+    unfold requiresAcyclic
+    apply peel_complete sp rank hrank
+    · simp
+    · intro n _ q hq
+      right
+      rcases (isTask_iff sp q).mp (hwf n q hq) with ⟨t, ht, hn⟩
+      exact List.mem_map.mpr ⟨t, ht, hn⟩
+
+/-! ### no needed task is blocked for ever -/
+
+/-- with existing requirements and a ranking: whatever tasks have succeeded so far, as long as some
+    needed task has not, there is a needed task that has not succeeded all of whose requirements have
+    (it is startable, or already started) -/
+theorem needed_never_blocked (sp : Spec) (nd : List String) (hnd : needed sp = some nd)
+    (hwf : WellFormedN sp) (hac : AcyclicN sp) (succeeded : List String)
+    (hex : ∃ n ∈ nd, n ∉ succeeded) :
+    ∃ n ∈ nd, n ∉ succeeded ∧ ∀ q ∈ reqsN sp n, q ∈ nd ∧ q ∈ succeeded := by
+  rcases hac with ⟨rank, hrank⟩
+  rcases hex with ⟨n0, hn0, hn0s⟩
+  have hne : nd.filter (fun n => !succeeded.contains n) ≠ [] := by
+    intro h
+    have : n0 ∈ nd.filter (fun n => !succeeded.contains n) := by
+      refine List.mem_filter.mpr ⟨hn0, ?_⟩
+      cases hc : succeeded.contains n0 with
+      | true => exact absurd (List.contains_iff_mem.mp hc) hn0s
+      | false => rfl
+    rw [h] at this; simp at this
+  rcases exists_min_rank rank _ hne with ⟨n, hn, hmin⟩
+  rcases List.mem_filter.mp hn with ⟨hnnd, hns⟩
+  refine ⟨n, hnnd, ?_, ?_⟩
+  · intro hc
+    rw [List.contains_iff_mem.mpr hc] at hns; cases hns
+  · intro q hq
+    have hqnd : q ∈ nd := needed_closed sp nd hnd n hnnd q hq (hwf n q hq)
+    refine ⟨hqnd, ?_⟩
+    cases hc : succeeded.contains q with
+    | true => exact List.contains_iff_mem.mp hc
+    | false =>
+      have hqf : q ∈ nd.filter (fun n => !succeeded.contains n) := List.mem_filter.mpr ⟨hqnd, by rw [hc]; rfl⟩
+      have h1 := hmin q hqf
+      have h2 := hrank n q hq
+      omega
+
 end Mistral.Reverse
